@@ -5,7 +5,7 @@
 From Coq Require Import String.
 Require Import OV.Base.Bytes OV.Base.Py OV.Base.PyInt OV.Base.Str.
 Require Import OV.Model.C14_Py OV.Gen.C14 OV.Model.C14.
-Require Import OV.Proofs.C14 OV.Proofs.C14_Str OV.Proofs.C14_Int OV.Proofs.C14_Bool OV.Proofs.C14_Num OV.Proofs.C14_Uuid OV.Proofs.C14_Words.
+Require Import OV.Proofs.C14 OV.Proofs.C14_Str OV.Proofs.C14_Int OV.Proofs.C14_Bool OV.Proofs.C14_Num OV.Proofs.C14_Uuid OV.Proofs.C14_Words OV.Proofs.C14_Examples.
 Open Scope Z_scope.
 
 (* ---------------- the tie to the source ---------------- *)
